@@ -329,6 +329,12 @@ func runC15(c *core.Ctx, o Options) {
 		c.Check(bad == "", "U3", "Stop", "the close deadline armed by Stop is left running", st.Pos(), "no Timer.Stop/Reset in Stop itself", bad+": the deadline callback never fires, and a peer that does not answer the Logout keeps the session alive for ever")
 	}
 	c.Explanation += " U8 premise (= C10.Y8): sendRaw blocks until there is room in the queue or the handler stops; it never drops. U5 also: Handle never runs the callback it registers. U3 also: no function literal set up by Stop resets the deadline, and only the logout-event callback stops it." + " U3 also: Stop itself never stops or resets the deadline timer it armed. U4 also: callbacks are triggered with no session mutex held. U6 premises: the inbound dispatch order (all-types handlers before the Logout handler); registered handlers stay registered (only an empty handler list is deleted). U5 also: Trigger does not hold the pool's mutex exclusively while the callbacks run (a callback may raise an event itself)."
+	// U9 (premises): the peer's Logout reaches the handler whatever its size (framing) and whatever its text contains (value extraction)
+	c.RulePrefix = "U9"
+	framingRules(c, libFuncs(c))
+	c.RulePrefix = ""
+	checkValueExtraction(c, "U9")
+	c.Explanation += " U9 premises: the framing rules C04.F1–F3 and the decoder's value extraction C02.R5."
 	c.RuleMin = map[string]int{"M1": 3, "U1": 3, "U2": 1, "U3": 3, "U4": 4, "U5": 5, "U6": 8, "U8": 3, "U7": 6}
 	c.MinObl = 12
 }
